@@ -349,6 +349,34 @@ func Moat(rng *fw.Rng, W int64) Poly {
 	return p
 }
 
+// Degenerate: rings of 0, 1 or 2 points, rings repeating one point, polygons without rings (C06 only).
+func Degenerate(rng *fw.Rng, W int64) Poly {
+	if rng.Chance(1, 12) {
+		return Poly{}
+	}
+	nr := 1 + rng.Intn(4)
+	p := make(Poly, nr)
+	for i := range p {
+		switch rng.Intn(6) {
+		case 0:
+			p[i] = []P{}
+		case 1:
+			p[i] = []P{{rng.Int63n(W), rng.Int63n(W)}}
+		case 2:
+			a := P{rng.Int63n(W), rng.Int63n(W)}
+			p[i] = []P{a, a, a, a}
+		case 3:
+			p[i] = []P{{rng.Int63n(W), rng.Int63n(W)}, {rng.Int63n(W), rng.Int63n(W)}}
+		default:
+			k := 3 + rng.Intn(5)
+			for j := 0; j < k; j++ {
+				p[i] = append(p[i], P{rng.Int63n(W), rng.Int63n(W)})
+			}
+		}
+	}
+	return p
+}
+
 // Kinds lists all generator names.
 var Kinds = []string{"star", "comb", "sliver", "angle", "rectholes", "spiky", "grow", "junk", "motif", "border", "moat"}
 
@@ -377,6 +405,8 @@ func ByName(name string, rng *fw.Rng, W int64) Poly {
 		return Border(rng, W)
 	case "moat":
 		return Moat(rng, W)
+	case "degenerate":
+		return Degenerate(rng, W)
 	}
 	panic("unknown generator " + name)
 }
@@ -384,6 +414,13 @@ func ByName(name string, rng *fw.Rng, W int64) Poly {
 // Bounds of a polygon in lattice units.
 func (p Poly) Bounds() (minx, miny, maxx, maxy int64) {
 	minx, miny, maxx, maxy = math.MaxInt64, math.MaxInt64, math.MinInt64, math.MinInt64
+	n := 0
+	for _, r := range p {
+		n += len(r)
+	}
+	if n == 0 {
+		return 0, 0, 0, 0
+	}
 	for _, r := range p {
 		for _, v := range r {
 			minx, miny, maxx, maxy = min(minx, v[0]), min(miny, v[1]), max(maxx, v[0]), max(maxy, v[1])
